@@ -136,6 +136,12 @@ func (db *DB) Start(initCheckpoints []recovery.CheckpointHandle) error {
 	db.sstables = latestCP.Levels
 	db.seqNum = latestCP.Levels.LatestSeqNum
 
+	// Table files are numbered per directory, like WAL files. Continue after the
+	// tables of the checkpoint: a database that is restored into the directory
+	// the checkpoint was taken in would otherwise name its next tables like the
+	// ones it has just loaded and overwrite them.
+	db.tableWriter.ContinueFrom(latestCP.Levels.NextTableNumber())
+
 	// Start a new writer that doesn't write to a file yet.
 	db.wal = wal.NewWriter(db.fs, latestCP.NextWALID(), db.maxWALSize)
 
